@@ -174,7 +174,7 @@ func randomFlags(rng *rand.Rand, j *kj.Journal, o flagOpts) *kj.Flags {
 		}
 	}
 	if o.Mapping && rng.Intn(4) == 0 {
-		f.RemapRx = []string{"^Liabilities", "^Assets:Bank", "Rent", "^Income"}[rng.Intn(4)]
+		f.RemapRx = []string{"^Liabilities", "^Assets:Bank", "Rent", "^Income", "Equity", ".", "y$"}[rng.Intn(7)]
 	}
 	return f
 }
